@@ -133,4 +133,12 @@ def run(rep):
     plain = lib.success_return_reachable(f, [tgt], cut_edges=okc)
     cp = lib.success_return_reachable(f, [tgt], cut_edges=okc, cp=True)
     ctl('A5 constant propagation removes the infeasible path', bool(plain), not cp)
+
+    # bounds-check discharge
+    bad_ix, nb = lib.undischarged_bounds(F[N + 'bad_index_lookahead'])
+    good_ix, ng = lib.undischarged_bounds(F[N + 'good_index_guarded'])
+    ctl('bounds-check discharge (index < len on the same value)', len(bad_ix) == 1 and nb == 2, not good_ix and ng == 2)
+    bad_r = lib.undischarged_ranges(F[N + 'bad_decode_flags'])[0] + lib.undischarged_bounds(F[N + 'bad_decode_flags'])[0]
+    good_r = lib.undischarged_ranges(F[N + 'good_decode_flags'])[0] + lib.undischarged_bounds(F[N + 'good_decode_flags'])[0]
+    ctl('range-index discharge (length lower bound from is_empty / len tests)', len(bad_r) == 2, not good_r)
     return results
